@@ -28,9 +28,62 @@ type Scenario struct {
 var Registry []*Scenario
 var byName = map[string]*Scenario{}
 
+// thoroughShare keeps every single thorough check within tens of minutes: the heaviest thorough-only enumerations
+// are each part of the thorough check of a few properties (those whose clauses they exercise most), not of all. What
+// such a run observes for other properties is still counted in the evidence (other_property_observations).
+func thoroughShare(name string, props []string) []string {
+	keep := func(want ...string) []string {
+		var out []string
+		for _, p := range props {
+			for _, w := range want {
+				if p == w {
+					out = append(out, p)
+				}
+			}
+		}
+		if len(out) == 0 {
+			return props
+		}
+		return out
+	}
+	has := func(pre string) bool { return len(name) >= len(pre) && name[:len(pre)] == pre }
+	switch {
+	case has("seq-ops-nb1/plain-fifo/"):
+		return keep("C01", "C03", "C09")
+	case has("seq-ops-nb1/err-prio/"):
+		return keep("C05", "C10", "C16")
+	case has("seq-ops-nb1/res-fifo/"):
+		return keep("C08", "C07", "C17")
+	case has("seq-ops-nb1/plain-pers/"):
+		return keep("C11", "C02", "C06")
+	case has("seq-ops-seg/plain-fifo/seg1-2/"):
+		return keep("C01", "C04", "C10")
+	case has("seq-ops-seg/plain-fifo/seg2-3/"):
+		return keep("C17", "C03", "C09")
+	case has("seq-ops-seg/res-fifo/seg1-2/"):
+		return keep("C05", "C08", "C16")
+	case has("seq-ops-seg/res-fifo/seg2-3/"):
+		return keep("C02", "C06", "C07", "C18")
+	case has("seq-life/plain/"):
+		return keep("C14", "C01", "C02")
+	case has("seq-life/pending/"):
+		return keep("C14", "C03", "C09")
+	case has("seq-life/busy/"):
+		return keep("C14", "C06", "C16")
+	case has("seq-life/expiry+pending/"):
+		return keep("C14", "C17", "C18")
+	case has("seq-life/busy+expiry/"):
+		return keep("C14", "C18", "C02")
+	}
+	return props
+}
+
 func Register(s *Scenario) {
 	if byName[s.Name] != nil {
 		panic("duplicate scenario " + s.Name)
+	}
+	if s.Only == "thorough" {
+		s.Props = thoroughShare(s.Name, s.Props)
 	}
 	if s.Mode == "" {
 		s.Mode = "PB"
